@@ -186,8 +186,9 @@ def main():
     import C11b
     rviol, rbroken = C11b.run(rep, strict_diff)
     mviol, mbroken = C11b.run_mem(rep, strict_diff)
-    rviol = rviol[:4] + mviol[:3]
-    broken += rbroken + mbroken
+    wviol, wbroken = C11b.run_wide(rep, strict_diff)
+    rviol = rviol[:4] + mviol[:3] + wviol[:3]
+    broken += rbroken + mbroken + wbroken
     for v in rviol:
         rep.violation(dict(property=CID, broken=broken, **v), tag="retimed")
     seen = set()
